@@ -11,7 +11,7 @@ CHECKS = {
   cat="exploration", ref="DESIGN.md section 3, C01",
   technique="runtime monitoring: client-boundary emit log vs independent stream decoder, on ASan+UBSan libovni",
   text="Generated op scripts (boundary sweep over every distance 1..64 of the 2 MiB buffer limit, op soups, dense "
-       "automatic flushes, multi-thread, genuine partial writes) are executed against the real libovni built with "
+       "automatic flushes, multi-thread, genuine partial writes, writes failing with EINTR) are executed against the real libovni built with "
        "ASan+UBSan; every stream.obs is decoded by an independent parser and must equal, event for event and byte for "
        "byte, the log the driver wrote before each API call, flush markers aside. Held on the executions observed, "
        "not a proof over all programs.",
@@ -21,7 +21,7 @@ CHECKS = {
   cat="exploration", ref="DESIGN.md section 3, C02",
   technique="runtime monitoring: conformant generated programs on ASan+UBSan libovni, independent trace validator, then ovniemu -l",
   text="Generated protocol-conformant programs (1-4 threads, all clocks from ovni_clock_now, near-capacity jumbo events "
-       "arriving at swept buffer fill levels, back-to-back automatic flushes, OVNI_TMPDIR on and off) run against the "
+       "arriving at buffer fill levels with every distance 1..64 to the limit covered, back-to-back automatic flushes, OVNI_TMPDIR on and off, a quarter of the runs under genuine partial writes) run against the "
        "real libovni; every stream must pass an independent validator (header, exact tiling, non-decreasing clocks, "
        "properly paired non-nested OF[ OF], complete metadata) and the real ovniemu -l must accept the trace.",
   note="Conformance as documented in doc/user/runtime/index.md; OB. events with arbitrary payload/jumbo data stand "
@@ -50,7 +50,7 @@ CHECKS = {
  "C03": dict(
   cat="exploration", ref="DESIGN.md section 3, C03",
   technique="runtime monitoring: replay-order log from unique-id marks in thread.prv and ovnidump -x, checked against merge properties; ASan+UBSan invariant harness over heap.h",
-  text="Sets of 1-12 sorted streams over 1-3 looms (clock-offset tables in the trace and via -c, many equal corrected "
+  text="Sets of 1-12 (now and then 30-120) sorted streams over 1-4 looms, several looms per host, ranks placed cyclically, clock spans from 5 ns to 10^12 ns (clock-offset tables in the trace and via -c, many equal corrected "
        "clocks within and across streams, equal first clocks, streams of up to 3000 events, empty streams for the dump "
        "tools) are replayed by the real ovniemu, ovnidump and ovnitop. Unique mark ids turn thread.prv type 100 and the "
        "dump output into ordered logs; the monitor checks permutation (no loss, no duplicate), per-stream order, "
@@ -90,7 +90,7 @@ CHECKS = {
        "inside the last events, every payload shape for every payload-reading event (also as the last event of the "
        "stream), jumbo data without nil, MCV and clock extremes, page-multiple file sizes, byte noise; every JSON type at "
        "every metadata position, loom_cpus shapes, mark/require/loom garbage, malformed and deeply nested JSON; clock "
-       "offset tables - and every mutant is given to ovniemu, ovnidump, ovnitop and ovnisort built with ASan+UBSan, the "
+       "offset tables; valid streams with unsorted regions sorted with very small look-back rings - and every mutant is given to ovniemu, ovnidump, ovnitop and ovnisort built with ASan+UBSan, the "
        "stream loaded into an exact-size heap buffer so that a one-byte over-read is caught. Violation = signal (incl. "
        "abort), exit status other than 0/1, silent failure, sanitizer report, or a hang confirmed twice (20 s then 60 s "
        "on inputs of a few KiB). 'Never loops forever' is decided only as that bounded-time restatement.",
@@ -114,7 +114,7 @@ CHECKS = {
        "and minors {0,1,2} and patches {0,9}, random triples up to 10^6 and unambiguously malformed strings; (b) "
        "ovni_version_check_str of the built libovni for every triple around the library's own version and the malformed "
        "strings (accept = returns, refuse = abort with a diagnostic); (c) the real ovniemu on traces that require each "
-       "of the eight models at versions around the emulator's own, malformed requirements, and subsets of the seven "
+       "of the eight models at versions around the emulator's own, malformed requirements, several streams requiring one model at mixed versions (both orders), every version case again with -a, and subsets of the seven "
        "optional models spread over two threads: the set the emulator reports as enabled must be exactly the required "
        "set (all models with -a), probe events of enabled models are accepted and one of a disabled model is rejected.",
   note="Oracle: major equal and minor not greater, patch ignored. Strings that strtol tolerates by accident are "
@@ -134,8 +134,8 @@ CHECKS = {
   cat="exploration", ref="DESIGN.md section 3, C16",
   technique="runtime monitoring: differential run of the real ovnisort against a stable sort of the original event list (independent decoder), plus idempotence, check mode and emulator acceptance",
   text="Traces of 1-3 streams built from a sorted base of uniquely numbered events with many equal clocks and 1-8 OU[ OU] "
-       "regions (0-20 normal and jumbo events, internally sorted or not, belonging up to 2000 events back, also into a "
-       "previous region and at the start) are sorted by the real ovnisort with look-back windows from just above the "
+       "regions (0-20 normal and jumbo events, internally sorted or not, belonging up to 2000 events back or entirely in the "
+       "future, clock gaps of several seconds, also into a previous region and at the start) are sorted by the real ovnisort with look-back windows from just above the "
        "needed depth (the ring wraps and is rebuilt) to the default. Exit 0 is required and the decoded result must "
        "equal the stable sort by clock of the original list (permutation, bytes, order and tie stability in one "
        "comparison), same size; a second run must change nothing, ovnisort -c and ovniemu -l must accept. Streams whose "
@@ -222,7 +222,7 @@ CHECKS = {
   cat="fault_enumeration", ref="DESIGN.md section 3, C10",
   technique="runtime monitoring with fault injection: strace error injection into every file system call of the runtime, one failure per run, abort-or-complete oracle over exit status, stderr, both directories, the emit log and ovniemu -l",
   text="For every (file system call, occurrence) of the baseline of each deterministic single-thread script, with and "
-       "without OVNI_TMPDIR, one run per error code (ENOSPC, EIO, EACCES; EEXIST/ENOTDIR for mkdir; EMFILE for open; "
+       "without OVNI_TMPDIR, one run per error code (ENOSPC, EINTR, EIO, EACCES, EAGAIN, EFBIG on writes; EEXIST/ENOTDIR for mkdir; EMFILE/EINTR for open; "
        "EBUSY for unlink/rmdir) makes exactly that call fail, plus runs with genuine partial writes. If the driver "
        "returns normally, every stream in the final directory must equal the emit log byte for byte, be marked finished "
        "and the trace be accepted by ovniemu -l; otherwise it must have terminated with a diagnostic. Whatever the "
